@@ -27,7 +27,7 @@ func genC18(t *rapid.T) *c18Case {
 		maxC, maxF = 56, 10
 	}
 	c := &c18Case{
-		Seq:      gen.DrawAnimSeq(t, maxC, maxF, 1, []string{"binary", "binary", "levels", "gradient", "noise", "semi-flat", "transp-colored", "opaque"}),
+		Seq:      gen.DrawAnimSeq(t, maxC, maxF, 1, []string{"binary", "binary", "levels", "gradient", "noise", "semi-flat", "semi-strip", "transp-colored", "opaque"}),
 		Lossless: rapid.IntRange(0, 3).Draw(t, "lossless") == 0,
 		Mixed:    rapid.Bool().Draw(t, "mixed"),
 		Quality:  rapid.SampledFrom([]int{0, 30, 75, 95, 100}).Draw(t, "quality"),
